@@ -411,11 +411,16 @@ def run_schedule(item):
     def consumer():
         it = failing(rows) if fail_after is not None else iter(rows)
         gen = pm.fork(_Res(it), row_func_, N, predicate)
-        for row in gen:
+        try:
+            for row in gen:
+                if not s.started:
+                    s.log.append(['CPeekYield', row['id']])
+                delivered.append(row['id'])
+                applied.append(row['n'])
+        except UpstreamError:
             if not s.started:
-                s.log.append(['CPeekYield', row['id']])
-            delivered.append(row['id'])
-            applied.append(row['n'])
+                s.log.append(['CPeekFail'])
+            raise
         if not s.started:
             s.log.append(['CPeekEnd'])
         state['terminated'] = True
@@ -431,7 +436,8 @@ def run_schedule(item):
     leftovers = {n: a.state for n, a in s.actors.items() if a.state != 'done'}
     return dict(r=R, n=N, sel=sorted(sel), seed=item['seed'], strategy=strategy, ev=s.log, feeds=True,
                 fin=dict(delivered=delivered, applied=applied,
-                         terminated=bool(state['terminated'] and not leftovers and s.deadlock is None and state['error'] is None)),
+                         terminated=bool(state['terminated'] and not leftovers and s.deadlock is None and state['error'] is None),
+                         failed=isinstance(main.error, UpstreamError), clean=bool(not leftovers and s.deadlock is None)),
                 deadlock=s.deadlock, error=state['error'], error_type=type(main.error).__name__ if main.error is not None else None,
                 leftovers=leftovers, steps=s.steps, timeouts_fired=s.timeouts_fired)
 
@@ -444,7 +450,7 @@ _ACTOR_OF = {'PPut': 'producer', 'PMarker': 'producer', 'FGet': 'fetcher', 'FFwd
              'CGet': 'collector', 'CJoinProd': 'collector', 'CJoinW': 'collector', 'CJoinF': 'collector'}
 _OP_OF = {'PPut': 'put', 'PMarker': 'put', 'WGet': 'get', 'WPut': 'put', 'WExit': 'put', 'FGet': 'get', 'FFwd': 'put', 'FEnd': 'put',
           'CGet': 'get', 'CJoinProd': 'join', 'CJoinW': 'join', 'CJoinF': 'join'}
-_INTERNAL = ('CPeekYield', 'CPeekEnd', 'CStart')
+_INTERNAL = ('CPeekYield', 'CPeekEnd', 'CPeekFail', 'CStart')
 
 
 def run_script(item):
@@ -539,13 +545,28 @@ def run_script(item):
         calls[row['id']] = calls.get(row['id'], 0) + 1
         row['n'] += 1
 
+    fail_at = item.get('fail_at') or 0          # Parallelize!FailAt: the upstream raises when asked for its fail_at-th item
+
+    def upstream():
+        for i, row in enumerate(rows, start=1):
+            if i == fail_at:
+                raise UpstreamError('upstream failed at item %d' % i)
+            yield row
+        if fail_at == R + 1:
+            raise UpstreamError('upstream failed at exhaustion')
+
     def consumer():
-        gen = pm.fork(_Res(iter(rows)), row_func_, N, predicate)
-        for row in gen:
+        gen = pm.fork(_Res(upstream()), row_func_, N, predicate)
+        try:
+            for row in gen:
+                if not s.started:
+                    s.log.append(['CPeekYield', row['id']])
+                delivered.append(row['id'])
+                applied.append(row['n'])
+        except UpstreamError:
             if not s.started:
-                s.log.append(['CPeekYield', row['id']])
-            delivered.append(row['id'])
-            applied.append(row['n'])
+                s.log.append(['CPeekFail'])
+            raise
         if not s.started:
             s.log.append(['CPeekEnd'])
         state['terminated'] = True
@@ -574,7 +595,8 @@ def run_script(item):
                 diverge('the final state differs from the specification', expected=expected(script[-1]['st']), actual=project(s))
     return dict(r=R, n=N, sel=sorted(sel), ev=s.log, feeds=True,
                 fin=dict(delivered=delivered, applied=applied,
-                         terminated=bool(state['terminated'] and not leftovers and s.deadlock is None and state['error'] is None)),
+                         terminated=bool(state['terminated'] and not leftovers and s.deadlock is None and state['error'] is None),
+                         failed=isinstance(main.error, UpstreamError), clean=bool(not leftovers and s.deadlock is None)),
                 deadlock=s.deadlock, error=state['error'], leftovers=leftovers, steps=s.steps, followed=not div, divergence=div or None,
                 states_compared=checked[0], script_len=len(script))
 
